@@ -20,17 +20,27 @@ CONSTANT Variant   \* "code" = what the code does; "tr_or", "star_exact", "keep_
 -----------------------------------------------------------------------------
 (* 3x3 integer matrices <<row1, row2, row3>> *)
 I3 == <<<<1, 0, 0>>, <<0, 1, 0>>, <<0, 0, 1>>>>
-MatMul(A, B) == [i \in 1..3 |-> [j \in 1..3 |-> A[i][1] * B[1][j] + A[i][2] * B[2][j] + A[i][3] * B[3][j]]]
-MatT(A) == [i \in 1..3 |-> [j \in 1..3 |-> A[j][i]]]
-MatScale(A, s) == [i \in 1..3 |-> [j \in 1..3 |-> s * A[i][j]]]
-MatVec(A, v) == [i \in 1..3 |-> A[i][1] * v[1] + A[i][2] * v[2] + A[i][3] * v[3]]
+(* matrices are built as explicit tuples: `[i \in 1..3 |-> ...]` would be a lazy function that TLC re-evaluates at every
+   application (products of products then cost exponentially much) *)
+Dot3(A, B, i, j) == A[i][1] * B[1][j] + A[i][2] * B[2][j] + A[i][3] * B[3][j]
+MatMul(A, B) == << <<Dot3(A, B, 1, 1), Dot3(A, B, 1, 2), Dot3(A, B, 1, 3)>>,
+                   <<Dot3(A, B, 2, 1), Dot3(A, B, 2, 2), Dot3(A, B, 2, 3)>>,
+                   <<Dot3(A, B, 3, 1), Dot3(A, B, 3, 2), Dot3(A, B, 3, 3)>> >>
+MatT(A) == << <<A[1][1], A[2][1], A[3][1]>>, <<A[1][2], A[2][2], A[3][2]>>, <<A[1][3], A[2][3], A[3][3]>> >>
+MatScale(A, s) == << <<s * A[1][1], s * A[1][2], s * A[1][3]>>, <<s * A[2][1], s * A[2][2], s * A[2][3]>>,
+                     <<s * A[3][1], s * A[3][2], s * A[3][3]>> >>
+MatVec(A, v) == << A[1][1] * v[1] + A[1][2] * v[2] + A[1][3] * v[3], A[2][1] * v[1] + A[2][2] * v[2] + A[2][3] * v[3],
+                   A[3][1] * v[1] + A[3][2] * v[2] + A[3][3] * v[3] >>
 Det(A) == A[1][1] * (A[2][2] * A[3][3] - A[2][3] * A[3][2]) - A[1][2] * (A[2][1] * A[3][3] - A[2][3] * A[3][1])
           + A[1][3] * (A[2][1] * A[3][2] - A[2][2] * A[3][1])
 Nx(i) == (i % 3) + 1
 (* adjugate: A . Adj(A) = Det(A) . I3 *)
-Adj(A) == [i \in 1..3 |-> [j \in 1..3 |-> A[Nx(j)][Nx(i)] * A[Nx(Nx(j))][Nx(Nx(i))] - A[Nx(j)][Nx(Nx(i))] * A[Nx(Nx(j))][Nx(i)]]]
+Cof(A, i, j) == A[Nx(j)][Nx(i)] * A[Nx(Nx(j))][Nx(Nx(i))] - A[Nx(j)][Nx(Nx(i))] * A[Nx(Nx(j))][Nx(i)]
+Adj(A) == << <<Cof(A, 1, 1), Cof(A, 1, 2), Cof(A, 1, 3)>>, <<Cof(A, 2, 1), Cof(A, 2, 2), Cof(A, 2, 3)>>,
+             <<Cof(A, 3, 1), Cof(A, 3, 2), Cof(A, 3, 3)>> >>
 Divisible(M, d) == \A i, j \in 1..3 : M[i][j] % d = 0
-MatDiv(M, d) == [i \in 1..3 |-> [j \in 1..3 |-> M[i][j] \div d]]
+MatDiv(M, d) == << <<M[1][1] \div d, M[1][2] \div d, M[1][3] \div d>>, <<M[2][1] \div d, M[2][2] \div d, M[2][3] \div d>>,
+                   <<M[3][1] \div d, M[3][2] \div d, M[3][3] \div d>> >>
 
 -----------------------------------------------------------------------------
 (* class PointSymmetry: R proper, Inv and TR flags *)
@@ -112,12 +122,12 @@ ReducedRealNum(R, lat) == MatMul(lat.A, MatMul(MatT(Adj(R)), Adj(lat.A)))
 MapsRealLattice(R, lat) == Divisible(ReducedRealNum(R, lat), Det(lat.A))
 LatticeGram(lat) == MatMul(lat.A, MatMul(FrameGram(lat.fam), MatT(lat.A)))
 (* transform_reduced_vector(vec, recip_lattice): vec @ (B R^T B^-1) * (iTR * iInv), vec = integer numerators *)
-TransformReducedVector(g, k, lat) == LET v == MatVec(Reduced(g.R, lat), k) s == iTR(g) * iInv(g) IN [i \in 1..3 |-> s * v[i]]
+TransformReducedVector(g, k, lat) == LET v == MatVec(Reduced(g.R, lat), k) s == iTR(g) * iInv(g) IN <<s * v[1], s * v[2], s * v[3]>>
 (* check_basis_symmetry(basis): every element has an integer matrix in the basis *)
 CheckBasisSymmetry(G, lat) == \A n \in 1..Len(G) : MapsLattice(G[n].R, lat)
 CheckRealBasisSymmetry(G, lat) == \A n \in 1..Len(G) : MapsRealLattice(G[n].R, lat)
 (* symmetric_grid(nk): check_basis_symmetry(recip_lattice / nk[:, None]); integer form: rows scaled by n1 n2 n3 / n_i *)
-GridLattice(lat, nk) == [lat EXCEPT !.A = [i \in 1..3 |-> [j \in 1..3 |-> ((nk[1] * nk[2] * nk[3]) \div nk[i]) * lat.A[i][j]]]]
+GridLattice(lat, nk) == [lat EXCEPT !.A = TLCEval([i \in 1..3 |-> TLCEval([j \in 1..3 |-> ((nk[1] * nk[2] * nk[3]) \div nk[i]) * lat.A[i][j]])])]
 SymmetricGrid(G, lat, nk) == CheckBasisSymmetry(G, GridLattice(lat, nk))
 
 -----------------------------------------------------------------------------
@@ -126,7 +136,7 @@ InList(s, L) == \E k \in 1..Len(L) : Eq(L[k], s)                  \* `s3 in sym_
 RECURSIVE ForS2(_, _, _)
 ForS2(L, i, j) ==                                                  \* for s2 in sym_list: s3 = s1 * s2; append if new
    IF j > Len(L) THEN L
-   ELSE LET s3 == Mul(L[i], L[j]) IN ForS2(IF InList(s3, L) THEN L ELSE Append(L, s3), i, j + 1)
+   ELSE LET s3 == Mul(L[i], L[j]) IN ForS2(TLCEval(IF InList(s3, L) THEN L ELSE Append(L, s3)), i, j + 1)
 RECURSIVE ForS1(_, _)
 ForS1(L, i) == IF i > Len(L) THEN L ELSE ForS1(ForS2(L, i, 1), i + 1)   \* for s1 in sym_list
 ClosurePass(L) == ForS1(L, 1)                                      \* one body of `while True`
@@ -161,12 +171,12 @@ LatticeInvariant(G, lat) ==           \* integer in the reciprocal and in the re
 -----------------------------------------------------------------------------
 (* PointGroup.star(k): images under all elements, duplicates (modulo the reciprocal lattice) deleted from the end *)
 EquivMod(a, b, N) == IF Variant = "star_exact" THEN a = b ELSE \A i \in 1..3 : (a[i] - b[i]) % N = 0
-RemoveAt(s, i) == [k \in 1..(Len(s) - 1) |-> IF k < i THEN s[k] ELSE s[k + 1]]
+RemoveAt(s, i) == TLCEval([k \in 1..(Len(s) - 1) |-> IF k < i THEN s[k] ELSE s[k + 1]])
 RECURSIVE StarLoop(_, _, _)
 StarLoop(st, i, N) ==                                 \* for i in range(len(st) - 1, 0, -1)   (i is 1-based here)
    IF i < 2 THEN st
    ELSE StarLoop(IF \E j \in 1..(i - 1) : EquivMod(st[j], st[i], N) THEN RemoveAt(st, i) ELSE st, i - 1, N)
-Images(G, k, lat) == [n \in 1..Len(G) |-> TransformReducedVector(G[n], k, lat)]
+Images(G, k, lat) == TLCEval([n \in 1..Len(G) |-> TransformReducedVector(G[n], k, lat)])
 Star(G, k, N, lat) == StarLoop(Images(G, k, lat), Len(G), N)
 ModEq(a, b, N) == \A i \in 1..3 : (a[i] - b[i]) % N = 0
 (* C09: each distinct image (modulo the lattice) exactly once, nothing else; first occurrences in group order *)
@@ -185,8 +195,9 @@ StarFirstOccurrences(st, G, k, N, lat) ==
 Pow3(r) == CASE r = 0 -> 1 [] r = 1 -> 3 [] r = 2 -> 9 [] r = 3 -> 27 [] r = 4 -> 81
 Digit(n, r, a) == (n \div Pow3(r - a)) % 3                  \* index (0-based) on axis a (1-based) of flat position n (0-based)
 IsTensor(T) == T.rank \in 0..4 /\ Len(T.re) = Pow3(T.rank) /\ Len(T.im) = Pow3(T.rank)
-TAdd(S, T) == [rank |-> S.rank, re |-> [p \in 1..Len(S.re) |-> S.re[p] + T.re[p]], im |-> [p \in 1..Len(S.im) |-> S.im[p] + T.im[p]]]
-TScale(T, s) == [rank |-> T.rank, re |-> [p \in 1..Len(T.re) |-> s * T.re[p]], im |-> [p \in 1..Len(T.im) |-> s * T.im[p]]]
+(* sequences of components are forced with TLCEval (a lazy function would be re-evaluated at every application) *)
+TAdd(S, T) == [rank |-> S.rank, re |-> TLCEval([p \in 1..Len(S.re) |-> S.re[p] + T.re[p]]), im |-> TLCEval([p \in 1..Len(S.im) |-> S.im[p] + T.im[p]])]
+TScale(T, s) == [rank |-> T.rank, re |-> TLCEval([p \in 1..Len(T.re) |-> s * T.re[p]]), im |-> TLCEval([p \in 1..Len(T.im) |-> s * T.im[p]])]
 TZero(r) == [rank |-> r, re |-> [p \in 1..Pow3(r) |-> 0], im |-> [p \in 1..Pow3(r) |-> 0]]
 Outer(S, T) == LET n == Pow3(T.rank)                         \* (S x T)[i.., j..] = S[i..] T[j..]  (complex product)
                    s(p) == ((p - 1) \div n) + 1  t(p) == ((p - 1) % n) + 1 IN
@@ -197,8 +208,8 @@ Outer(S, T) == LET n == Pow3(T.rank)                         \* (S x T)[i.., j..
 (* PointSymmetry.rotate on axis a: out[.., i, ..] = SUM_m R[i][m] in[.., m, ..]   (res @ R.T on that axis) *)
 RotSeq(R, s, r, a) ==
    LET w == Pow3(r - a) IN
-   [p \in 1..Pow3(r) |-> LET i == Digit(p - 1, r, a)  b == p - i * w IN
-                          R[i + 1][1] * s[b] + R[i + 1][2] * s[b + w] + R[i + 1][3] * s[b + 2 * w]]
+   TLCEval([p \in 1..Pow3(r) |-> LET i == Digit(p - 1, r, a)  b == p - i * w IN
+                          R[i + 1][1] * s[b] + R[i + 1][2] * s[b + w] + R[i + 1][3] * s[b + 2 * w]])
 RotateAxis(R, T, a) == [rank |-> T.rank, re |-> RotSeq(R, T.re, T.rank, a), im |-> RotSeq(R, T.im, T.rank, a)]
 RECURSIVE RotateAxes(_, _, _)
 RotateAxes(R, T, a) == IF a > T.rank THEN T ELSE RotateAxes(R, RotateAxis(R, T, a), a + 1)   \* for i in range(dim - rank, dim)
@@ -210,12 +221,12 @@ RECURSIVE SourcePos(_, _, _, _)
 SourcePos(n, r, axes, k) ==          \* numpy: res.transpose(trans)[i] = res[j] with j[trans[k]] = i[k]
    IF k > Len(axes) THEN (n \div Pow3(Len(axes))) * Pow3(Len(axes))
    ELSE LET dim0 == r - Len(axes) IN Digit(n, r, dim0 + k) * Pow3(r - 1 - (dim0 + axes[k])) + SourcePos(n, r, axes, k + 1)
-TransposeSeq(s, r, axes) == [p \in 1..Pow3(r) |-> s[1 + SourcePos(p - 1, r, axes, 1)]]
+TransposeSeq(s, r, axes) == TLCEval([p \in 1..Pow3(r) |-> s[1 + SourcePos(p - 1, r, axes, 1)]])
 Apply(t, T) ==                                               \* Transform.__call__: transpose, conjugate, factor
    LET re1 == IF t.axes = <<>> THEN T.re ELSE TransposeSeq(T.re, T.rank, t.axes)
        im1 == IF t.axes = <<>> THEN T.im ELSE TransposeSeq(T.im, T.rank, t.axes)
        c == IF t.conj THEN -1 ELSE 1
-   IN [rank |-> T.rank, re |-> [p \in 1..Len(re1) |-> t.factor * re1[p]], im |-> [p \in 1..Len(im1) |-> t.factor * c * im1[p]]]
+   IN [rank |-> T.rank, re |-> TLCEval([p \in 1..Len(re1) |-> t.factor * re1[p]]), im |-> TLCEval([p \in 1..Len(im1) |-> t.factor * c * im1[p]])]
 transform_ident == [factor |-> 1, conj |-> FALSE, axes |-> <<>>]
 transform_odd == [factor |-> -1, conj |-> FALSE, axes |-> <<>>]
 transform_odd_conj == [factor |-> -1, conj |-> TRUE, axes |-> <<>>]
